@@ -144,6 +144,10 @@ impl<'de, R: Reader<'de>> Parser<R> {
         // every error made by the parser locates itself inside the input, whatever the reader position
         // (the padded reader may stand past the end: clamp + EOF substitution)
         ensures err_ok(res, self.read.data()),
+            // "carries a position" in the sense of the parser units (`has_pos`): line != 0
+            res.err.line != 0,
+//@body
+        proof { assert forall|i: int| 0 <= i implies line_of(self.read.data(), i) >= 1 by { lemma_line_col_bounds(self.read.data(), i); } }
 //@end
 
 //@extract file=src/parser.rs impl="Parser<R>" fn=fix_position
@@ -151,6 +155,7 @@ impl<'de, R: Reader<'de>> Parser<R> {
         requires self.read.wf(), self.read.data().len() <= 0x3fff_ffff_ffff_ffff,
         ensures err.err.line != 0 ==> res == err,
             err.err.line == 0 ==> err_ok(res, self.read.data()),
+            res.err.line != 0,
 //@end
 }
 
